@@ -1,12 +1,16 @@
 #!/bin/bash
-# Usage: tools/seedbatch.sh <Cxx> <demo dest relative path> [check props...]
-# Runs tools/seedtest.sh for /tmp/seed-<Cxx>/out/{1,2,3}; prints the summary lines; full logs in /tmp/seed-<Cxx>/log.N
+# Usage: [SEED_PREFIX=seed2] tools/seedbatch.sh <Cxx> <default demo dest | x> [check props...]
+# Runs tools/seedtest.sh for /tmp/<prefix>-<Cxx>/out/{1,2,3}; prints the summary lines; full logs in /tmp/<prefix>-<Cxx>/log.N
+# The demo destination of a change is taken from out/N/DEST, else from a "DEST: path" line of its README.md, else the default.
 P=$1; DEST=$2; shift 2
+PRE=${SEED_PREFIX:-seed}
+B=/tmp/$PRE-$P
 for n in 1 2 3; do
-  [ -d /tmp/seed-$P/out/$n ] || continue
+  [ -d $B/out/$n ] || continue
   d=$DEST
-  [ -f /tmp/seed-$P/out/$n/DEST ] && d=$(cat /tmp/seed-$P/out/$n/DEST)
-  /verif/tools/seedtest.sh $P /tmp/seed-$P/wt /tmp/seed-$P/out/$n $d "$@" > /tmp/seed-$P/log.$n 2>&1
-  echo "=== $P-$n: $(grep SUMMARY /tmp/seed-$P/log.$n)"
-  grep -E "VIOLATION|KNOWN-FINDING|cases,|exit=|PATCH DOES NOT" /tmp/seed-$P/log.$n | cut -c1-220
+  if [ -f $B/out/$n/DEST ]; then d=$(cat $B/out/$n/DEST)
+  elif grep -q '^[^A-Za-z]*DEST:' $B/out/$n/README.md 2>/dev/null; then d=$(grep -m1 -o 'DEST:.*' $B/out/$n/README.md | sed 's/DEST:[ `]*//; s/[` ].*$//'); fi
+  /verif/tools/seedtest.sh $P $B/wt $B/out/$n $d "$@" > $B/log.$n 2>&1
+  echo "=== $P-$n ($d): $(grep SUMMARY $B/log.$n)"
+  grep -E "VIOLATION|KNOWN-FINDING|cases,|exit=|PATCH DOES NOT" $B/log.$n | cut -c1-220
 done
